@@ -1051,7 +1051,12 @@ Statement: MatchedStatement /* "standard" way of solving if-then-else shift-redu
         ;
 
 IfCondition: T_IF '(' { CALL(@1, @2, if_begin()); } ExprList ')' { CALL(@3, @3, if_condition()); }
-        | T_IF '(' error ')'
+        | T_IF '(' error ')' {
+            /* keep the builder stacks as the error-free production leaves them: a condition is expected by if_end() */
+            CALL(@1, @2, if_begin());
+            CALL(@3, @3, expr_false());
+            CALL(@3, @3, if_condition());
+          }
         ;
 
 IfConditionThenMatched: IfCondition MatchedStatement T_ELSE { CALL(@1, @3, if_then()); };
